@@ -22,6 +22,8 @@ from typing import Any, Callable, Dict, List, Optional, Sequence, Tuple
 
 import z3
 
+from . import robust
+
 SENTINEL_INT = 10**40 + 7
 
 
@@ -66,9 +68,15 @@ class Ctx:
     def check(self, *extra: z3.BoolRef) -> str:
         t0 = time.time()
         self.queries += 1
+        if robust.forced():
+            self.solver.set("timeout", 1)
         r = self.solver.check(*extra)
-        self.solver_s += time.time() - t0
         s = str(r)
+        if s == "unknown":
+            # scheduling-dependent solver state: re-ask before anything is concluded from it
+            s, _ = robust.escalate(list(self.solver.assertions()) + list(extra),
+                                   self.query_timeout_ms, want_model=False)
+        self.solver_s += time.time() - t0
         if s == "unknown":
             self.unknowns += 1
         return s
@@ -1292,10 +1300,14 @@ class Prover:
 
     def check(self, *conds: z3.BoolRef) -> Tuple[str, Optional[z3.ModelRef]]:
         s = z3.Solver()
-        s.set("timeout", self.timeout_ms)
+        s.set("timeout", 1 if robust.forced() else self.timeout_ms)
         s.add(*conds)
         t0 = time.time()
         r = str(s.check())
+        m = s.model() if r == "sat" else None
+        if r == "unknown":
+            # never a verdict, and not yet an inconclusive obligation: see engine/robust.py
+            r, m = robust.escalate(list(s.assertions()), self.timeout_ms)
         self.solver_s += time.time() - t0
         self.asked += 1
         if r == "unsat":
@@ -1303,7 +1315,7 @@ class Prover:
             return r, None
         if r == "sat":
             self.sat += 1
-            return r, s.model()
+            return r, m
         self.unknown += 1
         return r, None
 
@@ -1325,11 +1337,13 @@ class Prover:
         s.add(*extra)
         t0 = time.time()
         r = str(s.check())
+        m = s.model() if r == "sat" else None
+        if r == "unknown":
+            r, m = robust.escalate(list(s.assertions()), self.timeout_ms)
         self.asked += 1
         if r != "sat":
             self.solver_s += time.time() - t0
             return None
-        m = s.model()
         out: Dict[str, Fraction] = {}
         for v in vars_:
             val = model_value(m, v)
@@ -1460,6 +1474,10 @@ def selftest() -> int:
     import itertools
 
     cases = 0
+    try:
+        cases += robust.selftest()
+    except AssertionError as e:
+        raise HarnessError(f"selftest: escalation ladder: {e}")
     P = Prover()
     ints = [-7, -3, -1, 0, 1, 2, 5]
     for a, b in itertools.product(ints, ints):
